@@ -279,7 +279,7 @@ fn history_unit(max_inj: usize) -> Unit {
             if !finished && !ctx.stop && ctx.st.violations_total == 0 {
                 ctx.st.violations_total += 1;
                 if ctx.st.violations.len() < crate::hv::e1::MAX_VIOLATIONS_KEPT {
-                    ctx.st.violations.push(crate::hv::e1::Violation { unit: ctx.unit.clone(), what: "generated history did not complete within the action bound".into(), case: init.to_json(), expected: json!(null), actual: json!(null) });
+                    ctx.st.violations.push(crate::hv::e1::Violation { engine: "e1".into(), unit: ctx.unit.clone(), what: "generated history did not complete within the action bound".into(), case: init.to_json(), expected: json!(null), actual: json!(null) });
                 }
             }
         }
